@@ -31,9 +31,11 @@ PID = "C11"
 TREE_ATTRS = ("_parent", "_children", "_sources", "_sensors", "_collections")
 
 # ---- sidecar effect contracts ------------------------------------------------------------------------------------------------
-MAY_RAISE_CALLS = {"check_format_input_obj", "format_obj_input", "add", "remove", "MagpylibBadUserInput"}
-PURE_NO_RAISE = {"isinstance", "len", "getattr", "id", "list", "tuple", "any", "all", "enumerate", "zip", "repr", "type", "super", "deepcopy",
-                 "add_iteration_suffix", "append", "extend", "copy"}
+# deepcopy walks user-extensible state (objects accept arbitrary attributes, styles hold user data): it may raise (e.g. an attribute that cannot be
+# pickled), and like every call it can be interrupted
+MAY_RAISE_CALLS = {"check_format_input_obj", "format_obj_input", "add", "remove", "MagpylibBadUserInput", "deepcopy"}
+PURE_NO_RAISE = {"isinstance", "len", "getattr", "id", "list", "tuple", "any", "all", "enumerate", "zip", "repr", "type", "super",
+                 "add_iteration_suffix", "append", "extend", "copy", "bool", "items", "split", "update"}
 CLOSERS = {"_update_src_and_sens"}  # re-establish the derived views == closes the transaction
 # complete transactions by themselves (callee contracts): rec_obj_remover removes the child from its parent's list AND updates that parent's views
 ATOMIC_WRITERS = {"rec_obj_remover"}
@@ -47,6 +49,21 @@ class Tx:
         self.problems = []
         self.assumed = set()
         self.nodes = 0
+        self.saved = {}  # local name -> tree attribute expression it was saved from (`parent = self._parent`)
+
+    def restores(self, st, open_):
+        """`X.attr = name` where `name` was saved from `X.attr` before the open write to that same attribute: closes that transaction"""
+        if isinstance(st, ast.Assign) and len(st.targets) == 1 and isinstance(st.targets[0], ast.Attribute) and isinstance(st.value, ast.Name):
+            tgt = ast.unparse(st.targets[0])
+            return self.saved.get(st.value.id) == tgt and open_ is not None and open_.replace(" ", "").startswith(tgt.replace(" ", "") + "=")
+        return False
+
+    def quiet_run(self, stmts, open_):
+        """result of running `stmts` from state `open_` without recording anything: (open state afterwards, had problems)"""
+        t = Tx(self.fname)
+        t.saved = dict(self.saved)
+        out = t.run_block(stmts, open_)
+        return out, bool(t.problems)
 
     def _calls(self, node):
         for n in ast.walk(node):
@@ -118,7 +135,13 @@ class Tx:
             b = self.run_block(st.orelse, open_)
             return a or b
         if isinstance(st, ast.Try):
+            n0 = len(self.problems)
             a = self.run_block(st.body, open_)
+            if st.finalbody and len(self.problems) > n0:
+                # an exception in the body runs the finally block: raises while a transaction is open are harmless if that block closes it (and cannot itself raise first)
+                opened = {p[0] for p in self.problems[n0:]}
+                if all(self.quiet_run(st.finalbody, o) == (None, False) for o in opened):
+                    del self.problems[n0:]
             for h in st.handlers:
                 a = self.run_block(h.body, a) or a
             return self.run_block(st.finalbody, a)
@@ -130,8 +153,11 @@ class Tx:
         mr = self.may_raise(st)
         if open_ and mr:
             self.problems.append((open_, mr[0], ast.unparse(st)[:70]))
-        if self.closes(st):
+        if self.closes(st) or self.restores(st, open_):
             return None
+        if isinstance(st, ast.Assign) and len(st.targets) == 1 and isinstance(st.targets[0], ast.Name) and isinstance(st.value, ast.Attribute) \
+                and st.value.attr in TREE_ATTRS and open_ is None:
+            self.saved[st.targets[0].id] = ast.unparse(st.value)
         # remove(): `child._parent = None` right after the atomic rec_obj_remover completes the detachment: a closing write
         w = self.opens(st)
         if w:
@@ -149,7 +175,7 @@ def transaction_obligations(rep):
 
     fails = []
     targets = [(CO.BaseCollection, "add"), (CO.BaseCollection, "remove"), (CO.BaseCollection, "children"), (CO.BaseCollection, "sources"),
-               (CO.BaseCollection, "sensors"), (CO.BaseCollection, "collections"), (BG.BaseGeo, "parent")]
+               (CO.BaseCollection, "sensors"), (CO.BaseCollection, "collections"), (BG.BaseGeo, "parent"), (BG.BaseGeo, "copy")]
     for cls, name in targets:
         member = cls.__dict__[name]
         fn = member.fset if isinstance(member, property) else member
@@ -275,7 +301,20 @@ def operations():
     ops.append(("c3+o0", lambda o: o[3] + o[0]))
     ops.append(("c4.copy()", lambda o: o[4].copy()))
     ops.append(("o0.copy()", lambda o: o[0].copy()))
+    for a in (0, 4):
+        ops.append((f"o{a}.copy() while it holds an attribute that cannot be deep-copied", lambda o, a=a: _copy_uncopyable(o[a])))
+    ops.append(("o0.copy(position='bad')", lambda o: o[0].copy(position="bad")))
     return ops
+
+
+def _copy_uncopyable(obj):
+    import threading
+
+    obj._verif_uncopyable = threading.Lock()
+    try:
+        return obj.copy()
+    finally:
+        del obj._verif_uncopyable
 
 
 def state_key(objs):
